@@ -246,6 +246,9 @@ class PolicyGen:
             for _ in range(ng):
                 k = rng.choice([0, 1, 1, 2, 3, 5, 8, 20])
                 groups.append(dict(action=self.action(), names=rng.sample(names_all, min(k, len(names_all))), nwc=[]))
+        elif kind == "single_cond":
+            # C02: one group, one conditional entry, one condition
+            groups.append(dict(action=self.action(), names=[], nwc=[dict(name=rng.choice(names_all), conds=[self.cond()])]))
         elif kind == "names_long":
             ng = rng.randint(1, 4)
             tot = rng.choice([245, 246, 247, 248, 249, 250, 251, 252, 253, 254, 255, 256, 257, 258, 259, 260, 300]) if rng.random() < 0.7 else rng.randint(100, len(names_all))
@@ -370,7 +373,7 @@ class PolicyGen:
         return " ".join(t)
 
     # -------------------------------------------------------------------------------------------- events
-    def events(self, pol, count, foreign_share=0.15):
+    def events(self, pol, count, foreign_share=0.15, x32_share=0.0):
         """Partition representatives for a policy: syscall numbers of its names (+-1), boundary numbers, the
         architecture and foreign ids, argument values around every operand, and argument words equal to other
         entries' syscall numbers / operands."""
@@ -417,6 +420,11 @@ class PolicyGen:
             if r < foreign_share:
                 archw = rng.choice(foreign) if rng.random() < 0.8 else rng.getrandbits(32)
                 nr = rng.choice(pool_nr)
+                args = rand_args()
+            elif r < foreign_share + x32_share:
+                archw = ai["id"]
+                nr = rng.choice([0x40000000, 0x40000001, M32, 0x7fffffff, 0x80000000, 0xc0000000 | rng.getrandbits(30),
+                                 0x40000000 | rng.choice(pool_nr), 0x40000000 | rng.getrandbits(30), 0x3fffffff, rng.getrandbits(32)])
                 args = rand_args()
             else:
                 archw = ai["id"]
